@@ -151,6 +151,23 @@ class _N(ast.NodeTransformer):
         self.generic_visit(node)
         return self._loop_else(node)
 
+    def visit_Compare(self, node: ast.Compare):
+        self.generic_visit(node)
+        # N27: x not in (None, E)  ->  x is not None and x != E ;   x in (None, E)  ->  x is None or x == E
+        # (x a plain path, E a plain path / constant / call without arguments: both read the same either way)
+        if len(node.ops) == 1 and isinstance(node.ops[0], (ast.In, ast.NotIn)) and isinstance(node.comparators[0], (ast.Tuple, ast.List, ast.Set)) \
+                and len(node.comparators[0].elts) == 2 and _pure_path(node.left):
+            a, b = node.comparators[0].elts
+            if isinstance(b, ast.Constant) and b.value is None:
+                a, b = b, a
+            simple_b = _pure_path(b) or isinstance(b, ast.Constant) or (isinstance(b, ast.Call) and not b.args and not b.keywords and _pure_path(b.func))
+            if isinstance(a, ast.Constant) and a.value is None and simple_b and not (isinstance(b, ast.Constant) and b.value is None):
+                neg = isinstance(node.ops[0], ast.NotIn)
+                c1 = ast.Compare(left=node.left, ops=[ast.IsNot() if neg else ast.Is()], comparators=[ast.Constant(value=None)])
+                c2 = ast.Compare(left=_clone(node.left), ops=[ast.NotEq() if neg else ast.Eq()], comparators=[b])
+                return ast.copy_location(ast.BoolOp(op=ast.And() if neg else ast.Or(), values=[ast.copy_location(c1, node), ast.copy_location(c2, node)]), node)
+        return node
+
     def visit_IfExp(self, node: ast.IfExp):
         self.generic_visit(node)
         # N25: a if not c else b   ->   b if c else a
